@@ -19,7 +19,10 @@
 (***************************************************************************)
 EXTENDS LinAlg, TLC
 
-CONSTANTS Part, Instances, CovMasked, KeyedByPolicy, MaxLen
+CONSTANTS Part, Instances, CovMasked, KeyedByPolicy, MaxLen,
+          SetTargetsClears,    \* "all": set_train_data drops the prediction strategy (current code) | "active": only the active policy's entry
+          FantasyCacheLive     \* BOOLEAN: the mean cache carried into a fantasy strategy (computed by a NaN-unaware low-rank update) is
+                               \* stored under a key that later predictions look up (current code: FALSE - the entry is never found)
 
 VARIABLES c, hist
 vars == <<c, hist>>
@@ -77,10 +80,44 @@ Reset ==        \* train(); eval(): the prediction strategy is dropped
 
 ServedUnderCurrentPolicy == Part = "machine" => c.served = c.want
 
+\* ============================== datahist =======================================================
+\* The policy-keyed cache when the DATA changes between predictions: set_train_data(targets=...) and get_fantasy_model, under any
+\* policy (or none), with missing entries in the old and the new targets.  State: data version dv, cache entries [key, pol, dv, how]
+\* ("how" = "solve": computed from the data under that policy; "lowrank": carried by the fantasy update, which is not NaN-aware).
+DKey(p) == IF KeyedByPolicy THEN p ELSE "any"
+DInit == [dv |-> 0, cache |-> {}, served |-> [pol |-> "none", dv |-> 0, how |-> "solve"], want |-> [pol |-> "none", dv |-> 0, how |-> "solve"]]
+DPredict(p) ==
+  /\ Part = "datahist" /\ Len(hist) < MaxLen
+  /\ LET hits == {e \in c.cache : e.key = DKey(p)}
+         e0 == IF hits = {} THEN [key |-> DKey(p), pol |-> p, dv |-> c.dv, how |-> "solve"] ELSE CHOOSE e \in hits : TRUE
+     IN c' = [c EXCEPT !.cache = @ \cup {e0}, !.served = [pol |-> e0.pol, dv |-> e0.dv, how |-> e0.how], !.want = [pol |-> p, dv |-> c.dv, how |-> "solve"]]
+  /\ hist' = Append(hist, [a |-> "Predict", policy |-> p])
+DReset ==
+  /\ Part = "datahist" /\ Len(hist) < MaxLen
+  /\ c' = [c EXCEPT !.cache = {}, !.served = c.want]
+  /\ hist' = Append(hist, [a |-> "Reset"])
+\* set_train_data(targets=new targets with their own missing entries), called under policy u or outside any policy block ("none")
+DSetTargets(u) ==
+  /\ Part = "datahist" /\ Len(hist) < MaxLen
+  /\ c' = [c EXCEPT !.dv = @ + 1, !.served = c.want,
+                     !.cache = IF SetTargetsClears = "all" THEN {} ELSE {e \in @ : e.key # DKey(IF u = "none" THEN "ignore" ELSE u)}]
+  /\ hist' = Append(hist, [a |-> "SetTargets", under |-> u])
+\* get_fantasy_model under policy p (needs a strategy: some prediction was made); the history continues ON the fantasy model
+DFantasy(p) ==
+  /\ Part = "datahist" /\ Len(hist) < MaxLen /\ c.cache # {}
+  /\ c' = [c EXCEPT !.dv = @ + 1, !.served = c.want,
+                     !.cache = IF FantasyCacheLive THEN {[key |-> DKey(p), pol |-> p, dv |-> c.dv + 1, how |-> "lowrank"]} ELSE {}]
+  /\ hist' = Append(hist, [a |-> "Fantasy", policy |-> p])
+\* every prediction is the deletion answer for the CURRENT targets under the CURRENT policy, computed NaN-aware
+ServedCurrent == Part = "datahist" => c.served = c.want
+
 Init ==
   /\ hist = <<>>
   /\ IF Part = "algebra" THEN c \in Instances
+     ELSE IF Part = "datahist" THEN c = DInit
      ELSE c = [cache |-> {}, computedUnder |-> [k \in Policies \cup {"any"} |-> "none"], served |-> "none", want |-> "none"]
-Next == IF Part = "machine" THEN (Reset \/ \E p \in Policies : Predict(p)) ELSE UNCHANGED vars
+Next == IF Part = "machine" THEN (Reset \/ \E p \in Policies : Predict(p))
+        ELSE IF Part = "datahist" THEN (DReset \/ (\E p \in Policies : DPredict(p) \/ DFantasy(p)) \/ (\E u \in Policies \cup {"none"} : DSetTargets(u)))
+        ELSE UNCHANGED vars
 Spec == Init /\ [][Next]_vars
 =============================================================================
